@@ -16,6 +16,7 @@ structure Tok where
   audience : List String := []
   issuer : String := ""          -- the issuer the token response came from
   refresh : Bool := false        -- a refresh token (else an access token)
+  jwt : Bool := false            -- an access token handed out as a JWT (self-contained: it names its issuer in `iss`), else opaque
   grant : String := ""           -- tokens of one token response share it
   exp : Int := 0                 -- the expiration the storage gave the token (ns since the epoch; 0 = not known to the observer)
   live : Bool := true
@@ -24,18 +25,25 @@ structure Tok where
 structure MonState where
   base : C04.MonState := {}
   toks : List Tok := []
+  /-- the provider derives its issuer from the request and its storage keeps ONE token table for all of these issuers (it does not
+      partition its records by `op.IssuerFromContext(ctx)`; the documented Storage contract does not demand that) -/
+  flat : Bool := false
   deriving Repr, Inhabited
 
 inductive Ev
   | issued (t : Tok)
   | expired (label : String)
   /-- `iss` = the issuer the request was addressed to; `tok` = label of the genuine token the presented string stands for
-      ("" = none: forged, tampered, garbage, foreign key) -/
-  | userinfo (iss tok : String) (status : Nat) (subject : Option String)
+      ("" = none: forged, tampered, garbage, foreign key); `subject` = the `sub` member of a 2xx answer; `claims` = the 2xx answer
+      carries claims at all (its JSON body has a member) -/
+  | userinfo (iss tok : String) (status : Nat) (subject : Option String) (claims : Bool := subject.isSome)
   | introspect (iss : String) (p : C04.Presented) (tok : String) (status : Nat) (active : Bool) (members : List String)
   /-- `fault`: a storage call of this request was made to fail (an input of the history, like the clock);
-      `effect`: after the request the storage no longer holds the token as usable (its record is revoked / removed / expired) -/
+      `usable`: immediately before the request the provider honoured the presented string (userinfo at the token's own issuer answered 2xx);
+      `effect`: after the request the storage no longer holds the token as usable (its record is revoked / removed / expired), or the
+      provider does not honour the string -/
   | revoke (iss : String) (p : C04.Presented) (tok : String) (status : Nat) (performed : Bool) (fault : Bool := false) (effect : Bool := true)
+      (usable : Bool := true)
   | endSession (iss subject client : String) (status : Nat) (terminated : Bool)
   /-- `hasActor`: the request also carried an actor_token (delegation); `actor` = label of the genuine token it stands for ("" = none) -/
   | exchange (iss tok : String) (success : Bool) (hasActor : Bool := false) (actor : String := "")
@@ -56,14 +64,24 @@ def pastExpiry (t : Tok) (now : Int) : Bool := t.exp != 0 && decide (now > t.exp
     provider may already treat a self-contained token as expired; "still live" is only demanded of a token before it -/
 def lastSecond (t : Tok) (now : Int) : Bool := t.exp != 0 && decide (now + 1000000000 > t.exp)
 
+/-- is the token a token of the provider AT issuer `iss`: it was issued there - or it carries no issuer (an opaque access token, a
+    refresh token) and the storage is flat, i.e. keeps one table for all issuers of the provider and finds it under each of them.
+    A JWT access token names its issuer and belongs to that issuer alone, whatever the storage does -/
+def visibleAt (m : MonState) (t : Tok) (iss : String) : Bool := t.issuer == iss || (m.flat && !(t.jwt && !t.refresh))
+
 /-- a token may be honoured at `iss` only if the provider issued it, there, and it is neither expired, revoked nor logged out;
-    expired: the observer was told so, or the clock of the request is past the expiration the storage gave the token -/
+    expired: the observer was told so, or the clock of the request is past the expiration the storage gave the token.
+    "There" (`token-of-other-issuer`): a JWT access token names its issuer, and the LIBRARY checks that name against the issuer the
+    request is addressed to - so the clause holds for JWT access tokens over EVERY storage.  An opaque access token and a refresh token
+    carry no issuer: for them the storage is the only check, a flat storage (one table for all issuers of the provider) finds them under
+    every issuer, and honouring them there is the storage's doing, not the library's - on flat-storage histories the clause is therefore
+    raised for JWT access tokens only (over a partitioning storage, as before, for every token kind) -/
 def honourable (m : MonState) (now : Int) (ep unknown dead iss tok : String) (wantAccess : Bool) : Option String :=
   match find m tok with
   | none => some (ep ++ unknown)
   | some t =>
     if wantAccess && t.refresh then some (ep ++ unknown)
-    else if t.issuer != iss then some (ep ++ ":token-of-other-issuer")
+    else if !visibleAt m t iss then some (ep ++ ":token-of-other-issuer")
     else if !t.live then some (ep ++ dead)
     else if pastExpiry t now then some (ep ++ ":expired-token-honoured")
     else none
@@ -71,13 +89,18 @@ def honourable (m : MonState) (now : Int) (ep unknown dead iss tok : String) (wa
 def judge (m : MonState) (now : Int) (e : Ev) : Option String :=
   match e with
   | .issued _ | .expired _ => none
-  | .userinfo iss tok status subject =>
-    match subject with
-    | some sub =>
+  | .userinfo iss tok _ subject claims =>
+    -- "UserInfo returns claims only for a token the provider actually issued that is neither expired, revoked nor ...": judged is every
+    -- answer that carries claims (any member, not only `sub`).  A 2xx answer WITHOUT claims (the body `{}` of a token that was granted no
+    -- scope with claims, e.g. one issued by a token exchange without `scope`) returns nothing and is not judged
+    if claims || subject.isSome then
       match honourable m now "userinfo" ":claims-for-unknown-token" ":dead-token-honoured" iss tok true with
       | some v => some v
-      | none => if (find m tok).any (·.subject != sub) then some "userinfo:wrong-subject" else none
-    | none => if status ≥ 200 ∧ status < 300 then some "userinfo:2xx-without-claims" else none
+      | none =>
+        match subject with
+        | some sub => if (find m tok).any (·.subject != sub) then some "userinfo:wrong-subject" else none
+        | none => none
+    else none
   | .introspect iss p tok _ active members =>
     if active then
       match honourable m now "introspect" ":active-for-unknown-token" ":dead-token-active" iss tok true with
@@ -87,21 +110,24 @@ def judge (m : MonState) (now : Int) (e : Ev) : Option String :=
         | none => some "introspect:unauthenticated-caller"
         | some c => if (find m tok).any (!·.audience.contains c.id) then some "introspect:caller-not-in-audience" else none
     else if members != [] && members != ["active"] then some "introspect:inactive-answer-discloses-fields" else none
-  | .revoke iss p tok status performed fault effect =>
+  | .revoke iss p tok status performed fault effect usable =>
     -- (a storage fault excuses an error answer, never a success answer: what was answered 200 has taken effect, see `update`)
     match find m tok with
     | none => if (callerOf m now p true).isSome && status != 200 && !fault then some "revoke:unknown-token-not-200" else none
     | some t =>
-      if t.issuer != iss then none          -- another issuer's token: unknown there, no demand on the answer
+      if !visibleAt m t iss then none       -- another issuer's token: unknown there, no demand on the answer
       else match callerOf m now p true with
       | none => if performed then some "revoke:by-unauthenticated-caller" else none
       | some c =>
         if c.id == t.client then
           (if status != 200 && !fault then some "revoke:owner-refused"            -- whatever the hint
            -- what was answered 200 has taken effect: the owner's revocation of a token that was still usable leaves it unusable
-           else if status == 200 && t.live && !lastSecond t now && !effect then some "revoke:answered-200-without-effect"
+           -- (`usable`: a token the provider honours nowhere - before and after - is unusable "from then on" whatever the storage holds)
+           else if status == 200 && t.live && !lastSecond t now && usable && !effect then some "revoke:answered-200-without-effect"
            else none)
-        else if status == 200 && t.live && !lastSecond t now then some "revoke:foreign-client-not-refused" else none
+        -- another client's attempt on a token that is in use is refused; on a string the provider honours nowhere it is an attempt
+        -- on an unknown token ("revoking an unknown or garbage token still answers 200")
+        else if status == 200 && t.live && !lastSecond t now && usable then some "revoke:foreign-client-not-refused" else none
   | .endSession _ _ _ status terminated => if status < 400 && !terminated then some "end_session:session-not-terminated" else none
   | .exchange iss tok success hasActor actor =>
     if success then
@@ -124,10 +150,10 @@ def update (m : MonState) (now : Int) (e : Ev) : MonState :=
   match e with
   | .issued t => { m with toks := m.toks ++ [t] }
   | .expired l => kill m (·.label == l)
-  | .revoke iss p tok status _ _ _ =>
+  | .revoke iss p tok status _ _ _ _ =>
     match find m tok, callerOf m now p true with
     | some t, some c =>
-      if c.id == t.client && status == 200 && t.issuer == iss then
+      if c.id == t.client && status == 200 && visibleAt m t iss then
         -- revoked by its owner: the token is dead from now on; a refresh token takes the access token of its grant with it
         kill m fun x => x.label == tok || (t.refresh && x.grant == t.grant)
       else m
@@ -136,7 +162,8 @@ def update (m : MonState) (now : Int) (e : Ev) : MonState :=
     -- a logout ends the session at the issuer it is addressed to (another issuer of the same provider is another tenant).
     -- An operation that answered success has taken effect: once the success redirect was given, the tokens of that session
     -- must not be honoured any more - whatever happened between the provider and its storage
-    if status < 400 then kill m fun x => x.subject == sub && x.client == cl && x.issuer == iss else m
+    -- (a flat storage has ONE session per user and client: it ends for all issuers of the provider)
+    if status < 400 then kill m fun x => x.subject == sub && x.client == cl && (x.issuer == iss || m.flat) else m
   | .refresh _ tok success rotated =>
     match find m tok with
     | some t => if success && rotated then kill m (·.grant == t.grant) else m     -- replaced by the tokens of the response
